@@ -391,6 +391,13 @@ def rule_d5(ctx) -> None:
 
 
 def check(ctx) -> None:
+    # D6: the completion computed for an imbalance is attached to the reaction the imbalance was computed for: the
+    # lists joined by position in the rule-based stage derive from the same rows without a filter in between
+    # (shared with C06-B3)
+    from ..pipeline import Pipeline
+    from . import c06
+
+    c06.rule_b3(ctx, Pipeline(ctx), "C08-D6")
     rule_d1(ctx)
     rule_d2(ctx)
     rule_d3(ctx)
